@@ -2,7 +2,6 @@ package c20
 
 import (
 	"fmt"
-	"math/rand"
 	"sync"
 	"sync/atomic"
 	"time"
@@ -67,7 +66,7 @@ type freeResult struct {
 }
 
 // runFree lets the clients run without a scheduler and checks the history.
-func runFree(cfg config, rng *rand.Rand) *freeResult {
+func runFree(cfg config) *freeResult {
 	st := &store{yield: true}
 	leasers := newLeasers(cfg, st)
 	var clock atomic.Int64
@@ -89,7 +88,6 @@ func runFree(cfg config, rng *rand.Rand) *freeResult {
 			runClient(i, leasers[i], cfg[i].Prog, rec)
 		}(i)
 	}
-	_ = rng
 	close(start)
 	wg.Wait()
 
